@@ -411,19 +411,20 @@ def extract_fn(item, opts, blocks, rewrites_log, as_stub=False):
     # ---- R4e (opt foreach=a,b): `for V in X {` with X one of the named reference-to-Vec/slice variables
     #      ->  `for verif_eN in 0..X.len() { let V = &X[verif_eN];`   (std semantics of IntoIterator for &Vec<T> / &[T]: the elements by reference, in order).
     #      The `for` keeps its place, so loop / loopiter / loopstart / loopend blocks address it by ordinal as usual.
-    if opts.get('foreach') and not as_stub:
-        names = opts['foreach'].split(',')      # whitespace-free source text of the iterated expression: `coeff_modulus`, `&self.data`, ...
+    if (opts.get('foreach') or opts.get('foreachval')) and not as_stub:
+        names = (opts.get('foreach') or '').split(',') + (opts.get('foreachval') or '').split(',')      # whitespace-free source text of the iterated expression: `coeff_modulus`, `&self.data`, ...
+        byval = (opts.get('foreachval') or '').split(',')      # owned Vec of Copy elements iterated by value: `let v = X[k];`
         q = bodyp + 1; ne = 0
         while q < bodye - 5:
             if tk(q)[1] == 'for' and tk(q + 1)[0] == 'id' and tk(q + 2)[1] == 'in':
                 e = q + 3
                 while e < bodye and tk(e)[1] != '{' and e - q < 12: e += 1
                 xt = ''.join(tk(i)[1] for i in range(q + 3, e))
-                if tk(e)[1] == '{' and xt in names:
+                if tk(e)[1] == '{' and xt and xt in names:
                     ne += 1; v = tk(q + 1)[1]; x = xt[1:] if xt.startswith('&') else xt; iv = 'verif_e%d' % ne
                     edits.append((tk(q + 1)[2], tk(q + 1)[3], R('4', v, iv)))
                     edits.append((tk(q + 3)[2], tk(e - 1)[3], R('4', text[tk(q + 3)[2]:tk(e - 1)[3]], '0..%s.len()' % x)))
-                    edits.append((tk(e)[3], tk(e)[3], R('4', '', ' let %s = &%s[%s];' % (v, x, iv))))
+                    edits.append((tk(e)[3], tk(e)[3], R('4', '', ' let %s = %s%s[%s];' % (v, '' if xt in byval else '&', x, iv))))
                     rewrites_log.append({'rule': 'R4', 'fn': item.name, 'before': 'for %s in %s {' % (v, xt), 'after': 'for %s in 0..%s.len() { let %s = &%s[%s];' % (iv, x, v, x, iv)})
                     q = e + 1; continue
             q += 1
